@@ -146,28 +146,50 @@ Lemma get_time_limit_limit_of sec usec :
 Proof.
   intros Hs Hu. destruct (time_limit_spec sec usec Hs Hu) as (t & Ht & Hz & Hnz & _).
   rewrite Ht. f_equal. unfold limit_of. cbn [fst snd].
+  destruct (sec <? 0) eqn:En; [lia|].
   destruct ((sec =? 0) && (usec =? 0)) eqn:E.
   - apply Hz. lia.
   - apply Hnz. lia.
 Qed.
 
-Lemma get_time_limit_some_nonneg sec usec v :
-  get_time_limit sec usec = Some v -> 0 <= sec /\ 0 <= usec.
+(** what the hook caches for an accepted value is the limit of what the kernel stored *)
+Lemma get_time_limit_kernel_store sec usec :
+  0 <= usec -> get_time_limit sec usec = Some (limit_of (kernel_store sec usec)).
 Proof.
-  unfold get_time_limit. destruct ((sec <? 0) || (usec <? 0)) eqn:E; [discriminate|]. lia.
+  intros Hu. unfold kernel_store. destruct (sec <? 0) eqn:E.
+  - rewrite time_limit_negative_sec by lia. reflexivity.
+  - apply get_time_limit_limit_of; lia.
 Qed.
+
+Lemma time_limit_of_current sec usec : time_limit_of current sec usec = get_time_limit sec usec.
+Proof. reflexivity. Qed.
 
 (** * The invariant *)
 
-Definition tv_nonneg (t : tv) : Prop := 0 <= fst t /\ 0 <= snd t.
+(** a stored option is a non-negative time value or the zero-timeout marker *)
+Definition tv_ok (t : tv) : Prop := (0 <= fst t /\ 0 <= snd t) \/ t = ZERO_TIMEOUT.
+
+Lemma tv_ok_kernel_store sec usec : 0 <= usec -> tv_ok (kernel_store sec usec).
+Proof.
+  intros Hu. unfold kernel_store, tv_ok. destruct (sec <? 0) eqn:E; [right; reflexivity|left; cbn [fst snd]; lia].
+Qed.
+
+Lemma tv_ok_nonneg t : tv_ok t -> ~ fst t < 0 -> 0 <= fst t /\ 0 <= snd t.
+Proof. intros [H | ->] Hn; [exact H|]. exfalso. apply Hn. cbn. lia. Qed.
+
+Lemma read_back_nonneg t : 0 <= fst t -> read_back t = t.
+Proof. intros H. unfold read_back. destruct (fst t <? 0) eqn:E; [lia|reflexivity]. Qed.
 
 Record inv (s : state) (tr : tracker) (l : live) : Prop := {
   inv_tr : tr = st_open s;
   inv_live : map fst l = map fst (st_open s);
-  inv_nonneg : forall fd o, alookup fd (st_open s) = Some o -> forall w, tv_nonneg (sel w o);
+  inv_shape : forall fd o, alookup fd (st_open s) = Some o -> forall w, tv_ok (sel w o);
+  (* a cache entry exists only for a live socket and is the limit of its current option *)
   inv_cache : forall w fd v, alookup fd (cache w s) = Some v ->
-     exists o, alookup fd (st_open s) = Some o /\
-               get_time_limit (fst (sel w o)) (snd (sel w o)) = Some v
+     exists o, alookup fd (st_open s) = Some o /\ v = limit_of (sel w o);
+  (* a zero timeout, which getsockopt cannot tell from "no timeout", is always cached *)
+  inv_zero : forall w fd o, alookup fd (st_open s) = Some o -> fst (sel w o) < 0 ->
+     alookup fd (cache w s) <> None
 }.
 
 Lemma inv_init : inv init [] [].
@@ -175,6 +197,7 @@ Proof.
   split; try reflexivity.
   - intros fd o H; discriminate.
   - intros [] fd v H; discriminate.
+  - intros w fd o H; discriminate.
 Qed.
 
 Lemma sel_upd_same w t o : sel w (upd w t o) = t.
@@ -195,22 +218,35 @@ Proof. destruct w; reflexivity. Qed.
 Lemma cache_set_open w o s : cache w (set_open o s) = cache w s.
 Proof. destruct w; reflexivity. Qed.
 
+Lemma cache_evicted w fd o s :
+  cache w {| st_open := o; st_rc := aremove fd (st_rc s); st_sc := aremove fd (st_sc s) |}
+  = aremove fd (cache w s).
+Proof. destruct w; reflexivity. Qed.
+
 Lemma which_dec (w w' : which) : {w = w'} + {w <> w'}.
 Proof. decide equality. Qed.
 
-(** One step inside the statement: no abort, the oracle accepts the observation, and the invariant
-    is re-established for the successor state, the tracker driven by that observation, and the
-    well-formedness tracker. *)
+Lemma alookup_ainsert_keeps {A} k k' (v : A) l :
+  alookup k' l <> None -> alookup k' (ainsert k v l) <> None.
+Proof.
+  intros H. destruct (Z.eq_dec k k') as [<-|Hne].
+  - rewrite alookup_ainsert_eq. discriminate.
+  - rewrite alookup_ainsert_neq by assumption. exact H.
+Qed.
+
+(** One step of any history inside the statement (negative [tv_sec] and dead descriptors included):
+    no abort, the oracle accepts the observation, and the invariant is re-established for the
+    successor state, the tracker driven by that observation, and the well-formedness tracker. *)
 Ltac four := split; [discriminate | split; [discriminate | split]].
 
 Lemma step_ok s tr l a :
-  inv s tr l -> fst (wf_step l a) = true -> no_neg_sec_op a = true ->
+  inv s tr l -> fst (wf_step l a) = true ->
   let '(s', r, _) := step s a in
   r <> OAbort /\ r <> ODiverged /\ ok_step tr a r = true /\
   inv s' (track_step tr (a, r)) (snd (wf_step l a)).
 Proof.
-  intros [Htr Hlive Hnn Hc] Hwf Hnd. subst tr.
-  destruct a as [|fd w sec usec|fd w|fd w|fd]; cbn [step wf_step fst snd] in *.
+  intros [Htr Hlive Hsh Hc Hz] Hwf. subst tr. unfold step.
+  destruct a as [|fd w sec usec|fd w|fd w|fd]; cbn [step_gen wf_step fst snd] in *.
   - (* Socket *)
     pose proof (lowest_free_fresh (st_open s)) as Hfresh.
     four; [reflexivity|]. cbn [track_step]. constructor.
@@ -219,24 +255,26 @@ Proof.
       apply ainsert_same_keys; assumption.
     + cbn [st_open set_open]. intros fd' o Hl w.
       destruct (Z.eq_dec (lowest_free (st_open s)) fd') as [<-|Hne].
-      * rewrite alookup_ainsert_eq in Hl. inversion Hl; subst. unfold tv_nonneg. destruct w; cbn [sel fst snd]; lia.
-      * rewrite alookup_ainsert_neq in Hl by assumption. eapply Hnn; eassumption.
+      * rewrite alookup_ainsert_eq in Hl. inversion Hl; subst. left. destruct w; cbn [sel fst snd]; lia.
+      * rewrite alookup_ainsert_neq in Hl by assumption. eapply Hsh; eassumption.
     + intros w fd' v Hl. rewrite cache_set_open in Hl.
       destruct (Hc w fd' v Hl) as (o & Ho & Hg).
       exists o. split; [|exact Hg]. cbn [st_open set_open].
       rewrite alookup_ainsert_neq; [exact Ho|]. intros <-. congruence.
+    + intros w fd' o Hl Hneg. rewrite cache_set_open. cbn [st_open set_open] in Hl.
+      destruct (Z.eq_dec (lowest_free (st_open s)) fd') as [<-|Hne].
+      * rewrite alookup_ainsert_eq in Hl. inversion Hl; subst o. destruct w; cbn [sel fst snd] in Hneg; lia.
+      * rewrite alookup_ainsert_neq in Hl by assumption. eapply Hz; eassumption.
   - (* SetOpt *)
-    cbn [no_neg_sec_op] in Hnd.
     destruct (alookup fd (st_open s)) as [o|] eqn:Ho.
     + destruct ((usec <? 0) || (1000000 <=? usec)) eqn:Eus.
       * (* EDOM *)
         four; [reflexivity|]. cbn [track_step]. constructor; try assumption. reflexivity.
-      * destruct (get_time_limit sec usec) as [v|] eqn:Eg.
-        2:{ exfalso. unfold get_time_limit in Eg.
-            destruct ((sec <? 0) || (usec <? 0)) eqn:E; [lia|discriminate]. }
-        assert (Hks : kernel_store sec usec = (sec, usec)).
-        { unfold kernel_store. destruct (sec <? 0) eqn:E; [lia|reflexivity]. }
-        four; [reflexivity|]. cbn [track_step]. rewrite Z.eqb_refl, Ho. constructor.
+      * assert (Hu : 0 <= usec) by lia.
+        rewrite time_limit_of_current, (get_time_limit_kernel_store sec usec Hu).
+        set (ks := kernel_store sec usec).
+        assert (Hks : tv_ok ks) by (apply tv_ok_kernel_store; exact Hu).
+        four; [reflexivity|]. cbn [track_step]. rewrite Z.eqb_refl, Ho. fold ks. constructor.
         -- rewrite open_set_cache. reflexivity.
         -- rewrite open_set_cache. cbn [st_open set_open].
            rewrite Hlive. symmetry. apply ainsert_present_keys. congruence.
@@ -244,16 +282,16 @@ Proof.
            destruct (Z.eq_dec fd fd') as [<-|Hne].
            ++ rewrite alookup_ainsert_eq in Hl. inversion Hl; subst o'.
               destruct (which_dec w w') as [<-|Hw].
-              ** rewrite sel_upd_same, Hks. unfold tv_nonneg. cbn [fst snd]. lia.
-              ** rewrite sel_upd_other by assumption. eapply Hnn; eassumption.
-           ++ rewrite alookup_ainsert_neq in Hl by assumption. eapply Hnn; eassumption.
+              ** rewrite sel_upd_same. exact Hks.
+              ** rewrite sel_upd_other by assumption. eapply Hsh; eassumption.
+           ++ rewrite alookup_ainsert_neq in Hl by assumption. eapply Hsh; eassumption.
         -- rewrite open_set_cache. cbn [st_open set_open]. intros w' fd' v' Hl.
            destruct (which_dec w w') as [<-|Hw].
            ++ rewrite cache_set_cache_same, cache_set_open in Hl.
               destruct (Z.eq_dec fd fd') as [<-|Hne].
               ** rewrite alookup_ainsert_eq in Hl. inversion Hl; subst v'.
                  eexists. split; [apply alookup_ainsert_eq|].
-                 rewrite sel_upd_same, Hks. exact Eg.
+                 rewrite sel_upd_same. reflexivity.
               ** rewrite alookup_ainsert_neq in Hl by assumption.
                  destruct (Hc w fd' v' Hl) as (o' & Ho' & Hg').
                  exists o'. split; [|exact Hg']. rewrite alookup_ainsert_neq; assumption.
@@ -263,35 +301,58 @@ Proof.
               ** eexists. split; [apply alookup_ainsert_eq|].
                  rewrite sel_upd_other by assumption. congruence.
               ** exists o'. split; [|exact Hg']. rewrite alookup_ainsert_neq; assumption.
+        -- rewrite open_set_cache. cbn [st_open set_open]. intros w' fd' o' Hl Hneg.
+           destruct (which_dec w w') as [<-|Hw].
+           ++ rewrite cache_set_cache_same, cache_set_open.
+              destruct (Z.eq_dec fd fd') as [<-|Hne].
+              ** rewrite alookup_ainsert_eq. discriminate.
+              ** rewrite alookup_ainsert_neq in Hl by assumption.
+                 rewrite alookup_ainsert_neq by assumption. eapply Hz; eassumption.
+           ++ rewrite cache_set_cache_other, cache_set_open by assumption.
+              destruct (Z.eq_dec fd fd') as [<-|Hne].
+              ** rewrite alookup_ainsert_eq in Hl. inversion Hl; subst o'.
+                 rewrite sel_upd_other in Hneg by assumption. eapply Hz; eassumption.
+              ** rewrite alookup_ainsert_neq in Hl by assumption. eapply Hz; eassumption.
     + (* EBADF *)
       four; [reflexivity|]. cbn [track_step]. constructor; try assumption. reflexivity.
   - (* Limit *)
-    assert (Hopen : exists o, alookup fd (st_open s) = Some o).
-    { rewrite (amem_same_keys fd l (st_open s) Hlive) in Hwf. unfold amem in Hwf.
-      destruct (alookup fd (st_open s)) as [o|]; [eauto|discriminate]. }
-    destruct Hopen as (o & Ho).
-    destruct (Hnn fd o Ho w) as [H1 H2].
     destruct (alookup fd (cache w s)) as [v|] eqn:Ec.
-    + destruct (Hc w fd v Ec) as (o' & Ho' & Hg). rewrite Ho in Ho'. inversion Ho'; subst o'.
-      rewrite (get_time_limit_limit_of _ _ H1 H2) in Hg. inversion Hg; subst v.
+    + (* cached *)
+      destruct (Hc w fd v Ec) as (o & Ho & Hg). subst v.
       four.
-      * cbn [ok_step]. rewrite Ho. destruct (sel w o); cbn [fst snd]. apply Z.eqb_refl.
+      * cbn [ok_step]. rewrite Ho. apply Z.eqb_refl.
       * cbn [track_step]. constructor; try assumption. reflexivity.
-    + rewrite Ho. rewrite (get_time_limit_limit_of _ _ H1 H2).
-      four.
-      * cbn [ok_step]. rewrite Ho. destruct (sel w o); cbn [fst snd]. apply Z.eqb_refl.
-      * cbn [track_step]. constructor.
-        -- rewrite open_set_cache. reflexivity.
-        -- rewrite open_set_cache. assumption.
-        -- rewrite open_set_cache. assumption.
-        -- rewrite open_set_cache. intros w' fd' v' Hl.
-           destruct (which_dec w w') as [<-|Hw].
-           ++ rewrite cache_set_cache_same in Hl.
-              destruct (Z.eq_dec fd fd') as [<-|Hne].
-              ** rewrite alookup_ainsert_eq in Hl. inversion Hl; subst v'.
-                 exists o. split; [exact Ho|]. apply get_time_limit_limit_of; assumption.
-              ** rewrite alookup_ainsert_neq in Hl by assumption. apply Hc; assumption.
-           ++ rewrite cache_set_cache_other in Hl by assumption. apply Hc; assumption.
+    + destruct (alookup fd (st_open s)) as [o|] eqn:Ho.
+      * (* first use on a live socket: the option is read and cached *)
+        assert (Hnn : ~ fst (sel w o) < 0).
+        { intros Hneg. apply (Hz w fd o Ho Hneg). exact Ec. }
+        destruct (tv_ok_nonneg _ (Hsh fd o Ho w) Hnn) as [H1 H2].
+        rewrite (read_back_nonneg _ H1), time_limit_of_current.
+        rewrite (get_time_limit_limit_of _ _ H1 H2).
+        replace (fst (sel w o), snd (sel w o)) with (sel w o) by (destruct (sel w o); reflexivity).
+        four.
+        -- cbn [ok_step]. rewrite Ho. apply Z.eqb_refl.
+        -- cbn [track_step]. constructor.
+           ++ rewrite open_set_cache. reflexivity.
+           ++ rewrite open_set_cache. assumption.
+           ++ rewrite open_set_cache. assumption.
+           ++ rewrite open_set_cache. intros w' fd' v' Hl.
+              destruct (which_dec w w') as [<-|Hw].
+              ** rewrite cache_set_cache_same in Hl.
+                 destruct (Z.eq_dec fd fd') as [<-|Hne].
+                 --- rewrite alookup_ainsert_eq in Hl. inversion Hl; subst v'.
+                     exists o. split; [exact Ho|reflexivity].
+                 --- rewrite alookup_ainsert_neq in Hl by assumption. apply Hc; assumption.
+              ** rewrite cache_set_cache_other in Hl by assumption. apply Hc; assumption.
+           ++ rewrite open_set_cache. intros w' fd' o' Hl Hneg.
+              destruct (which_dec w w') as [<-|Hw].
+              ** rewrite cache_set_cache_same. apply alookup_ainsert_keeps. eapply Hz; eassumption.
+              ** rewrite cache_set_cache_other by assumption. eapply Hz; eassumption.
+      * (* dead descriptor: "no limit", nothing cached *)
+        cbn [current v_badfd_panics].
+        four.
+        -- cbn [ok_step]. rewrite Ho. reflexivity.
+        -- cbn [track_step]. constructor; try assumption. reflexivity.
   - (* KGet *)
     destruct (alookup fd (st_open s)) as [o|] eqn:Ho.
     + four; [reflexivity|]. cbn [track_step]. constructor; try assumption. reflexivity.
@@ -304,60 +365,66 @@ Proof.
       * cbn [st_open set_open]. intros fd' o' Hl w'.
         destruct (Z.eq_dec fd fd') as [<-|Hne].
         -- rewrite alookup_aremove_eq in Hl. discriminate.
-        -- rewrite alookup_aremove_neq in Hl by assumption. eapply Hnn; eassumption.
-      * intros w' fd' v' Hl. rewrite cache_set_open in Hl. cbn [st_open set_open].
+        -- rewrite alookup_aremove_neq in Hl by assumption. eapply Hsh; eassumption.
+      * intros w' fd' v' Hl. rewrite cache_set_open, cache_evicted in Hl. cbn [st_open set_open].
         destruct (Z.eq_dec fd fd') as [<-|Hne].
-        -- destruct w'; cbn [cache st_rc st_sc] in Hl; rewrite alookup_aremove_eq in Hl; discriminate.
-        -- rewrite alookup_aremove_neq by assumption. apply Hc.
-           destruct w'; cbn [cache st_rc st_sc] in Hl |- *;
-             rewrite alookup_aremove_neq in Hl by assumption; exact Hl.
-    + four; [reflexivity|]. cbn [track_step]. 
+        -- rewrite alookup_aremove_eq in Hl. discriminate.
+        -- rewrite alookup_aremove_neq in Hl by assumption.
+           rewrite alookup_aremove_neq by assumption. apply Hc. exact Hl.
+      * intros w' fd' o' Hl Hneg. rewrite cache_set_open, cache_evicted. cbn [st_open set_open] in Hl.
+        destruct (Z.eq_dec fd fd') as [<-|Hne].
+        -- rewrite alookup_aremove_eq in Hl. discriminate.
+        -- rewrite alookup_aremove_neq in Hl by assumption.
+           rewrite alookup_aremove_neq by assumption. eapply Hz; eassumption.
+    + four; [reflexivity|]. cbn [track_step].
       replace (-1 =? 0) with false by reflexivity. constructor.
       * reflexivity.
       * cbn [st_open].
         (* the descriptor is not live: removing it from the wf tracker changes nothing *)
         rewrite (aremove_same_keys fd l (st_open s) Hlive). rewrite (aremove_absent _ _ Ho). reflexivity.
       * cbn [st_open]. assumption.
-      * intros w' fd' v' Hl. cbn [st_open].
+      * intros w' fd' v' Hl. rewrite cache_evicted in Hl. cbn [st_open].
         destruct (Z.eq_dec fd fd') as [<-|Hne].
-        -- destruct w'; cbn [cache st_rc st_sc] in Hl; rewrite alookup_aremove_eq in Hl; discriminate.
-        -- apply Hc. destruct w'; cbn [cache st_rc st_sc] in Hl |- *;
-             rewrite alookup_aremove_neq in Hl by assumption; exact Hl.
+        -- rewrite alookup_aremove_eq in Hl. discriminate.
+        -- rewrite alookup_aremove_neq in Hl by assumption. apply Hc. exact Hl.
+      * intros w' fd' o' Hl Hneg. rewrite cache_evicted. cbn [st_open] in Hl.
+        destruct (Z.eq_dec fd fd') as [<-|Hne].
+        -- congruence.
+        -- rewrite alookup_aremove_neq by assumption. eapply Hz; eassumption.
 Qed.
 
 (** * Whole histories *)
 
 Lemma run_ok : forall ops s tr l,
-  inv s tr l -> wf_from l ops = true -> no_defect_C19 ops = true ->
+  inv s tr l -> wf_from l ops = true ->
   ok_from tr ops (run_from s ops) = true /\
   ~ In OAbort (run_from s ops) /\ ~ In ODiverged (run_from s ops) /\
   length (run_from s ops) = length ops.
 Proof.
-  induction ops as [|a ops IH]; intros s tr l Hinv Hwf Hnd.
+  induction ops as [|a ops IH]; intros s tr l Hinv Hwf.
   - cbn. tauto.
-  - cbn [wf_from] in Hwf. cbn [no_defect_C19 forallb] in Hnd.
-    apply andb_true_iff in Hnd as [Hnd1 Hnd2].
+  - cbn [wf_from] in Hwf.
     pose proof (step_ok s tr l a Hinv) as Hstep.
     destruct (wf_step l a) as [b l'] eqn:Ewf. cbn [fst snd] in Hstep.
     apply andb_true_iff in Hwf as [Hb Hwf']. subst b.
-    specialize (Hstep eq_refl Hnd1).
-    cbn [run_from]. destruct (step s a) as [[s' r] t].
+    specialize (Hstep eq_refl).
+    unfold run_from. cbn [run_from_gen]. fold (step s a). destruct (step s a) as [[s' r] t].
+    fold (run_from s' ops).
     destruct Hstep as (Hna & Hndv & Hok & Hinv').
-    destruct (IH s' _ l' Hinv' Hwf' Hnd2) as (IH1 & IH2 & IH3 & IH4).
+    destruct (IH s' _ l' Hinv' Hwf') as (IH1 & IH2 & IH3 & IH4).
     destruct r; try congruence; cbn [ok_from In length];
       (split; [rewrite Hok; exact IH1|]);
       (split; [intros [H|H]; [discriminate|contradiction]|]);
       (split; [intros [H|H]; [discriminate|contradiction]|]); f_equal; exact IH4.
 Qed.
 
-Theorem ok_C19_run ops :
-  wf_C19 ops = true -> no_defect_C19 ops = true -> ok_C19 ops (run_C19 ops) = true.
-Proof. intros Hwf Hnd. exact (proj1 (run_ok ops init [] [] inv_init Hwf Hnd)). Qed.
+Theorem ok_C19_run ops : wf_C19 ops = true -> ok_C19 ops (run_C19 ops) = true.
+Proof. intros Hwf. exact (proj1 (run_ok ops init [] [] inv_init Hwf)). Qed.
 
 Theorem no_abort_C19 ops :
-  wf_C19 ops = true -> no_defect_C19 ops = true ->
+  wf_C19 ops = true ->
   ~ In OAbort (run_C19 ops) /\ ~ In ODiverged (run_C19 ops) /\ length (run_C19 ops) = length ops.
-Proof. intros Hwf Hnd. exact (proj2 (run_ok ops init [] [] inv_init Hwf Hnd)). Qed.
+Proof. intros Hwf. exact (proj2 (run_ok ops init [] [] inv_init Hwf)). Qed.
 
 (** * What the oracle means *)
 
@@ -392,9 +459,8 @@ Qed.
 Theorem ok_C19_sound ops rs : ok_C19 ops rs = true -> C19_spec ops rs.
 Proof. intros H i fd w o. apply ok_from_sound. exact H. Qed.
 
-Theorem limit_current_C19 ops :
-  wf_C19 ops = true -> no_defect_C19 ops = true -> C19_spec ops (run_C19 ops).
-Proof. intros Hwf Hnd. apply ok_C19_sound, ok_C19_run; assumption. Qed.
+Theorem limit_current_C19 ops : wf_C19 ops = true -> C19_spec ops (run_C19 ops).
+Proof. intros Hwf. apply ok_C19_sound, ok_C19_run; assumption. Qed.
 
 (** A descriptor number that comes back from [Socket] carries no limit, whatever happened to that
     number before (finding #22: the cache used to survive [close]). *)
@@ -417,13 +483,13 @@ Qed.
 
 Theorem fresh_socket_unlimited_C19 ops fd w :
   let h := ops ++ [Socket; Limit fd w] in
-  wf_C19 h = true -> no_defect_C19 h = true ->
+  wf_C19 h = true ->
   nth_error (run_C19 h) (length ops) = Some (OFd fd) ->
   nth_error (run_C19 h) (S (length ops)) = Some (OVal U64MAX).
 Proof.
-  intros h Hwf Hnd Hfd.
-  pose proof (limit_current_C19 h Hwf Hnd) as Hspec.
-  destruct (no_abort_C19 h Hwf Hnd) as (_ & _ & Hlen).
+  intros h Hwf Hfd.
+  pose proof (limit_current_C19 h Hwf) as Hspec.
+  destruct (no_abort_C19 h Hwf) as (_ & _ & Hlen).
   assert (Hh : length h = S (S (length ops))).
   { unfold h. rewrite app_length. cbn. lia. }
   assert (Hn0 : nth_error h (length ops) = Some Socket).
@@ -439,8 +505,38 @@ Proof.
   apply alookup_ainsert_eq.
 Qed.
 
-(** * The recorded finding: a negative [tv_sec] (accepted by the native call) aborts *)
+(** * The two repaired findings, on the model of the code before each repair *)
 
-Theorem refuted_negative_sec :
-  exists ops, wf_C19 ops = true /\ ok_C19 ops (run_C19 ops) = false.
-Proof. exists [Socket; SetOpt 0 Rcv (-1) 0]. split; vm_compute; reflexivity. Qed.
+Definition old_run_C19 (ver : version) (ops : list op) : list obs := run_from_gen ver init ops.
+
+(** a negative [tv_sec] (accepted by the native call) aborted *)
+Theorem refuted_negative_sec_before_repair :
+  exists ops, wf_C19 ops = true /\ In OAbort (old_run_C19 before_negsec_repair ops)
+              /\ ok_C19 ops (old_run_C19 before_negsec_repair ops) = false.
+Proof. exists [Socket; SetOpt 0 Rcv (-1) 0]. repeat split; vm_compute; auto. Qed.
+
+(** a limit lookup on a descriptor number that is not open aborted *)
+Theorem refuted_limit_on_closed_fd_before_repair :
+  exists ops, wf_C19 ops = true /\ In OAbort (old_run_C19 before_badfd_repair ops)
+              /\ ok_C19 ops (old_run_C19 before_badfd_repair ops) = false.
+Proof. exists [Socket; Close 0; Limit 0 Rcv]. repeat split; vm_compute; auto. Qed.
+
+(** * What the repaired code does on those inputs *)
+
+(** in any state: when a [setsockopt] with a negative [tv_sec] is accepted, the next limit lookup
+    on that socket and direction answers [AT_ONCE] (from the cache, the state is unchanged), while
+    getsockopt reports (0, 0) *)
+Theorem negative_sec_times_out_at_once s fd w sec usec s1 t :
+  sec < 0 -> step s (SetOpt fd w sec usec) = (s1, ORet 0, t) ->
+  fst (step s1 (Limit fd w)) = (s1, OVal AT_ONCE) /\ snd (fst (step s1 (KGet fd w))) = OTv 0 0.
+Proof.
+  intros Hneg. unfold step. cbn [step_gen].
+  destruct (alookup fd (st_open s)) as [o|] eqn:Ho; [|intros H; inversion H].
+  destruct ((usec <? 0) || (1000000 <=? usec)) eqn:Eus; [intros H; inversion H|].
+  rewrite time_limit_of_current, (time_limit_negative_sec sec usec Hneg).
+  intros H. inversion H; subst s1. clear H.
+  rewrite cache_set_cache_same, alookup_ainsert_eq.
+  rewrite open_set_cache. cbn [st_open set_open]. rewrite alookup_ainsert_eq.
+  rewrite sel_upd_same. unfold kernel_store. destruct (sec <? 0) eqn:E; [|lia].
+  split; reflexivity.
+Qed.
